@@ -157,7 +157,7 @@ def run_frame(pose, ests, gts, targets, policy, crit, pf_thresholds, task="detec
                                     matching_label_policy=POLICIES[policy], matchable_thresholds=match_radii,
                                     transforms=gtf.transforms)
     mcfg = MetricsScoreConfig(cfg.evaluation_task, target_labels=targets,
-                              **(metrics or {"center_distance_thresholds": [[1.0] * len(targets)]}))
+                              **({"center_distance_thresholds": [[1.0] * len(targets)]} if metrics is None else metrics))
     pf_names, pf_thr = (names[::-1], list(pf_thresholds)[::-1]) if pf_reversed else (names, list(pf_thresholds))
     fr = PerceptionFrameResult(results, gtf, mcfg, crit_config(cfg, names, crit),
                                PerceptionPassFailConfig(cfg, pf_names, matching_threshold_list=pf_thr),
